@@ -140,7 +140,12 @@ func Run(ctx *core.Ctx) {
 		"(bytes also read by Model.C01.serveConn = ReqConn.serve with the pipeline as decision function); then CROSS-TALK cases: 16 keep-alive clients at the " +
 		"same time against one instance per configuration (direct, upstream, MITM), bursts of 1-8 pipelined requests, every client with its own Via chain " +
 		"(1-6 elements, comments, 1-3 lines), X-Forwarded-For/-Host/-Url, custom and nominated fields, path, query and body built around a marker of its own: " +
-		"each request judged against the model alone and scanned for any other client's marker; " +
+		"each request judged against the model alone and scanned for any other client's marker; then, at the head of the connection cases, SCHEME cases (scheme.go): " +
+		"the client's forwarding fields as a dimension of every request form - X-Forwarded-Proto absent / http / https / HTTPS / ws / garbage / empty / two lines with different " +
+		"values / one list value, crossed with absolute-form http://, absolute-form https:// and origin-form targets, on the plain listeners and inside intercepted tunnels, routed " +
+		"direct / through an upstream HTTP proxy that tunnels CONNECT / by PAC / MITM, half of them with X-Forwarded-Host / -Url / -For / Forwarded naming another host, port, path " +
+		"and scheme: the next hop must be contacted with the scheme of the request target (TLS origin vs. plain origin vs. absolute-form at the upstream proxy; model: C01 scheme = " +
+		"Model/C01Scheme.lean reach; requests whose scheme the transport does not speak are compared only: no hop, 500; distribution: scheme/ counts); " +
 		"a request is non-trivial when it has a body, a repeated field, or a hop-by-hop/managed field; " +
 		"distinct = distinct (configuration, request bytes)")
 	pool := &envPool{envs: map[envKey]*env{}, ctx: ctx}
@@ -205,6 +210,13 @@ func Run(ctx *core.Ctx) {
 				e.runConn(ctx, j.cc)
 			}
 		}()
+	}
+	// SCHEME cases (scheme.go): the forwarding fields of the client crossed with the request form and the route
+	for i, cc := range genSchemeConns(ctx.Rng.Sub(), ctx.N(2, 12)) {
+		if i < 2 {
+			ctx.Sample(cc)
+		}
+		jobs <- job{cc}
 	}
 	for i := 0; i < nConn; i++ {
 		r := ctx.Rng.Sub()
